@@ -69,6 +69,8 @@ type RigOpts struct {
 	// Factory, if set, is used instead of a fresh factory for Mode/Queue (several channels of one
 	// factory value, the way a Bootstrap creates all of its channels).
 	Factory netty.ChannelFactory
+	// NoServe: build the channel but do not hand it to Pipeline.ServeChannel (a connection still being set up).
+	NoServe bool
 	// ID, if non-zero, is the channel id (default: a process-wide counter).
 	ID int64
 }
@@ -185,7 +187,9 @@ func NewRig(o RigOpts) *Rig {
 		}
 		Route(r.Ch, fn)
 	}
-	r.PL.ServeChannel(r.Ch)
+	if !o.NoServe {
+		r.PL.ServeChannel(r.Ch)
+	}
 	return r
 }
 
